@@ -19,9 +19,9 @@ import c08
 
 PROP = "C15"
 MC_INVS_C15 = "TsExcluded TsFurthest TsMonotone"
-BOUNDS = {
-    "quick": c08.BOUNDS["quick"],
-    "thorough": dict(N=4, Levels=[0, 1, 2, 9], MaxFiles=3, MaxTs=3, Parts=1, Fanout=True, cfg="MC_RestorePlan_ts3.cfg", chunk=60000),
+BOUNDS = {      # timestamp requests only (TsOnly)
+    "quick": c08.BOUNDS["quick"][1],
+    "thorough": dict(N=4, Levels=c08.LV, MaxFiles=3, MaxTs=3, Parts=1, Fanout=True, TsOnly=True, cfg="MC_RestorePlan_ts3.cfg"),
 }
 
 
@@ -167,31 +167,27 @@ def main():
         st_real = real_histories(rep, wd, ts_bin, histories(seed, tier), "histories")
 
         # R3 (a) function level on the real CalcRestorePlan: timestamp requests only
-        inputs, counts = c08.write_exhaustive(b, wd, only_ts=True)
+        cw = c08.CaseWriter(wd, "ex", c08.CHUNK[tier])
+        counts = c08.write_exhaustive(b, cw)
         if counts != inits:
-            raise vlib.MachineryError("input space mismatch: python %d file sets, TLC %d initial states" % (sum(counts), sum(inits)))
-        st_ex = c08.run_batches(rep, wd, rp_bin, inputs, c08.C15_CLAUSES, PROP, "exhaustive, timestamp requests", keep_samples=False)
-        nrand = 3000 if tier == "quick" else 60000
+            raise vlib.MachineryError("input space mismatch: python %d file sets, TLC %d" % (sum(counts), sum(inits)))
+        nrand = 2000 if tier == "quick" else 60000
         rnd = random.Random(seed * 31337 + 5)
-        cases = []
         for i in range(nrand):
             n, maxts = rnd.randint(3, 8), rnd.randint(2, 9)
             files = c08.realistic_set(rnd, n, maxts)
-            cases.append({"id": 10 ** 7 + i, "files": files, "reqs": [[0, t] for t in range(1, maxts + 2)]})
-        rin = []
-        for k in range(0, len(cases), b["chunk"]):
-            pth = os.path.join(wd, "rl%d.in.ndjson" % k)
-            c08.write_cases(pth, cases[k:k + b["chunk"]])
-            rin.append(("rl%d" % k, pth))
-        st_rl = c08.run_batches(rep, wd, rp_bin, rin, c08.C15_CLAUSES, PROP, "replica-shaped random, timestamp requests", keep_samples=False)
+            cw.add(json.dumps({"id": 10 ** 7 + i, "files": files, "reqs": [[0, t] for t in range(1, maxts + 2)]}, separators=(",", ":")))
+        cw.close()
+        st_fn = c08.run_batches(rep, wd, rp_bin, cw.inputs, c08.C15_CLAUSES, PROP,
+                                "exhaustive + replica-shaped random, timestamp requests", keep_samples=False)
+        st_fn["exhaustive_file_sets"], st_fn["replica_shaped_random_file_sets"] = sum(counts), nrand
 
         rep.cov["traces_validated_against_impl"] = st_real["histories"]
-        rep.cov["evaluations"] = st_real["restores"] + st_ex["evals"] + st_rl["evals"]
+        rep.cov["evaluations"] = st_real["restores"] + st_fn["evals"]
         rep.cov["distinct_nontrivial"] = st_real["nontrivial"]
-        rep.cov["divergences"] = st_ex["divergences"] + st_rl["divergences"]
+        rep.cov["divergences"] = st_fn["divergences"]
         rep.cov["real_histories"] = st_real
-        rep.cov["function_level"] = {"exhaustive": st_ex, "replica_shaped_random": st_rl,
-                                     "input_space": {"file_sets": sum(counts), "tlc_file_set_states": sum(inits)}}
+        rep.cov["function_level"] = dict(st_fn, input_space={"cfg": b["cfg"], "file_sets": sum(counts), "tlc_file_set_states": sum(inits)})
         rep.cov["rule"] = ("traces = real histories replayed on a real file replica; evaluations = real Replica.Restore(Timestamp) calls + real "
                            "CalcRestorePlan(timestamp) calls, all judged by TLC; non-trivial = distinct real restores (history, T) with T equal to a "
                            "recorded replication time or inside the span of a compacted file / snapshot (it holds transactions replicated before T but "
